@@ -92,7 +92,7 @@ static void record_row(vh::Trace& tr, const Cfg& c, const ProjDataInfoCylindrica
   }
   QA s, ss, th, lp, lb, z1, z2;
   std::vector<int> sw;
-  std::vector<long long> fs, fphi, fm, fth;   // fixed-point observations (discrete geometries)
+  std::vector<long long> fs, fphi, fm, fth, fthm, fmm;   // fixed-point observations (discrete geometries)
   for (int tp = t0; tp <= t1; ++tp) {
     const Bin b(seg, view, ax, tp, tof);
     LORInAxialAndNoArcCorrSinogramCoordinates<float> lor;
@@ -102,6 +102,9 @@ static void record_row(vh::Trace& tr, const Cfg& c, const ProjDataInfoCylindrica
       fphi.push_back(std::llround(pdi.get_phi(b) * 1e6));
       fm.push_back(std::llround(pdi.get_m(b) * 1e3));
       fth.push_back(std::llround(pdi.get_tantheta(b) * 1e6));
+      // the same in-plane line in the opposite segment / at the mirrored axial position
+      fthm.push_back(std::llround(pdi.get_tantheta(Bin(-seg, view, ax, tp, tof)) * 1e6));
+      fmm.push_back(std::llround(pdi.get_m(Bin(seg, view, pdi.get_max_axial_pos_num(seg) + pdi.get_min_axial_pos_num(seg) - ax, tp, tof)) * 1e3));
       continue;
     }
     const double sv = pdi.get_s(b);
@@ -119,7 +122,7 @@ static void record_row(vh::Trace& tr, const Cfg& c, const ProjDataInfoCylindrica
     z2.add(quant(lor.z2(), uM));
     sw.push_back(lor.is_swapped() ? 1 : 0);
   }
-  if (discrete) { j.arr("fs", fs).arr("fphi", fphi).arr("fm", fm).arr("fth", fth); }
+  if (discrete) { j.arr("fs", fs).arr("fphi", fphi).arr("fm", fm).arr("fth", fth).arr("fthm", fthm).arr("fmm", fmm); }
   else {
     put(j, "s", s); if (c.arc) put(j, "ss", ss);
     put(j, "th", th); put(j, "lp", lp); put(j, "lb", lb); put(j, "z1", z1); put(j, "z2", z2); j.arr("sw", sw);
@@ -127,16 +130,31 @@ static void record_row(vh::Trace& tr, const Cfg& c, const ProjDataInfoCylindrica
   tr.emit(j);
 }
 
-// round trip get_bin(get_LOR(bin)) for a whole row; kind 0: the reported sinogram-coordinate line,
-// kind 1: the same line as two points (LORAs2Points, on the line's own radius)
+// round trip for a whole row.  kind 0: get_bin(get_LOR(bin)), the reported sinogram-coordinate line;
+// kind 1: the same line handed over as two points (LORAs2Points on the line's own radius);
+// kind 2: bin -> positions of its two detectors -> bin (find_cartesian_coordinates_of_detection and
+//         find_bin_given_cartesian_coordinates_of_detection; uncompressed, unmashed data only)
 static void record_rt(vh::Trace& tr, const Cfg& c, const ProjDataInfoCylindrical& pdi, int seg, int ax, int view, int tof, int kind) {
   const int t0 = pdi.get_min_tangential_pos_num(), t1 = pdi.get_max_tangential_pos_num();
+  const bool discrete = c.geom != "Cylindrical";
+  const auto* pc = dynamic_cast<const ProjDataInfoCylindricalNoArcCorr*>(&pdi);
+  const auto* pg = dynamic_cast<const ProjDataInfoGenericNoArcCorr*>(&pdi);
+  const auto* pb = dynamic_cast<const ProjDataInfoBlocksOnCylindricalNoArcCorr*>(&pdi);
   std::vector<int> ok, rs, ra, rv, rt, rk;
+  std::vector<long long> dr;
   bool threw_any = false;
   for (int tp = t0; tp <= t1; ++tp) {
     const Bin b(seg, view, ax, tp, tof, 1.F);
     Bin nb;
     bool err = vh::threw([&] {
+      if (kind == 2) {
+        CartesianCoordinate3D<float> c1, c2;
+        nb.set_bin_value(1.F);
+        if (pc) { pc->find_cartesian_coordinates_of_detection(c1, c2, b); pc->find_bin_given_cartesian_coordinates_of_detection(nb, c1, c2); }
+        else if (pb) { pb->find_cartesian_coordinates_of_detection(c1, c2, b); pb->find_bin_given_cartesian_coordinates_of_detection(nb, c1, c2); }
+        else throw std::string("no detector-position API");
+        return;
+      }
       LORInAxialAndNoArcCorrSinogramCoordinates<float> lor;
       pdi.get_LOR(lor, b);
       // arc-corrected get_bin does not support TOF ("TODO NO TOF YET"): the line alone is converted
@@ -148,6 +166,13 @@ static void record_rt(vh::Trace& tr, const Cfg& c, const ProjDataInfoCylindrical
         nb = pdi.get_bin(pts, dt);
       }
     });
+    if (discrete) {
+      // distance of the two crystals of the bin from the scanner axis: difference in 1e-4 mm
+      CartesianCoordinate3D<float> c1, c2;
+      if (pg) pg->find_cartesian_coordinates_of_detection(c1, c2, b);
+      const double ra1 = std::sqrt((double)c1.x() * c1.x() + (double)c1.y() * c1.y()), ra2 = std::sqrt((double)c2.x() * c2.x() + (double)c2.y() * c2.y());
+      dr.push_back(std::llround(std::fabs(ra1 - ra2) * 1e4));
+    }
     if (err) { threw_any = true; ok.push_back(-1); rs.push_back(0); ra.push_back(0); rv.push_back(0); rt.push_back(0); rk.push_back(0); continue; }
     const bool hit = nb.get_bin_value() > 0;
     ok.push_back(hit ? 1 : 0);
@@ -157,6 +182,7 @@ static void record_rt(vh::Trace& tr, const Cfg& c, const ProjDataInfoCylindrical
   vh::Json j("RT");
   j.num("seg", seg).num("ax", ax).num("view", view).num("tof", tof).num("t0", t0).num("kind", kind).boolean("err", threw_any)
       .arr("ok", ok).arr("rs", rs).arr("ra", ra).arr("rv", rv).arr("rt", rt).arr("rk", rk);
+  if (discrete) j.arr("dr", dr);
   tr.emit(j);
 }
 
@@ -230,12 +256,21 @@ static void record_config(vh::Trace& tr, const Cfg& c, const ProjDataInfoCylindr
   }
   for (auto& r : rows) {
     record_row(tr, c, pdi, r[0], r[1], r[2], r[3]);
-    if (c.geom == "Cylindrical") record_rt(tr, c, pdi, r[0], r[1], r[2], r[3], 0);
+    if (c.geom == "Cylindrical") record_rt(tr, c, pdi, r[0], r[1], r[2], r[3], 0);   // Generic get_bin only takes two-point lines
     record_rt(tr, c, pdi, r[0], r[1], r[2], r[3], 1);
+    // detector positions carry no time information and exist per bin for uncompressed, unmashed data only
+    if (!c.arc && c.span == 1 && !c.ge && c.mash == 1 && c.geom != "Generic" && pdi.get_tof_mash_factor() == 0) record_rt(tr, c, pdi, r[0], r[1], r[2], r[3], 2);
   }
   if (!c.arc && c.geom == "Cylindrical")
     record_pair_lines(tr, c, static_cast<const ProjDataInfoCylindricalNoArcCorr&>(pdi), std::max(20L, budget / 2), rng);
   record_tof_bins(tr, pdi);
+}
+
+// largest max_delta that ends a complete segment (-1: none)
+static int complete_max_delta(int span, int R) {
+  const int half0 = span % 2 ? (span - 1) / 2 : span / 2;
+  if (half0 > R - 1) return -1;
+  return half0 + (R - 1 - half0) / span * span;
 }
 
 static void run_cfg(vh::Trace& tr, Cfg c, const std::string& name, long budget, vh::Rng& rng, shared_ptr<Scanner> sc) {
@@ -320,7 +355,7 @@ static void arc_rows(vh::Trace& tr, const std::string& name, shared_ptr<Scanner>
   for (long row = 0; row < nr; ++row) {
     std::vector<long long> ov;
     for (int tp = o0; tp <= o1; ++tp) ov.push_back(vh::fx(sin_out[(int)row][tp], 10));
-    tr.emit(vh::Json("Arc").num("kind", kinds[row]).arr("in", ivs[row]).arr("out", ov));
+    tr.emit(vh::Json("Arc").num("kind", kinds[row]).arr("inp", ivs[row]).arr("out", ov));
   }
 }
 
@@ -346,47 +381,56 @@ int main(int argc, char** argv) {
       for (int variant = 0; variant < 6; ++variant) {
         Cfg c; c.N = N; c.R = R; c.geom = geom;
         c.maxT = sc->is_tof_ready() ? sc->get_max_num_timing_poss() : 0;
-        c.numTang = std::min(sc->get_max_num_non_arccorrected_bins(), N - 1);
+        c.numTang = std::min(sc->get_max_num_non_arccorrected_bins(), std::min(N - 3, 4 * N / 5));
         c.span = 1; c.maxDelta = R - 1;
         if (geom != "Cylindrical" && variant != 0) continue;      // Blocks/Generic: span 1, no mashing, non-TOF
-        if (variant == 1) { c.span = std::min(2 * R - 1, 3); c.maxDelta = std::min(R - 1, std::max(1, (R - 1) / 3 * 3 + 1)); if (c.maxDelta < 1) continue; for (int m : { 2, 3, 4, 5 }) if ((N / 2) % m == 0) { c.mash = m; break; } }
-        if (variant == 2) { c.span = std::min(2 * R - 1, 11); if (c.span % 2 == 0) c.span--; c.maxDelta = R - 1; if (c.maxDelta < (c.span - 1) / 2) continue; c.numTang = std::max(1, c.numTang / 2); }
+        if (variant == 1) { c.span = std::min(2 * R - 1, 3); c.maxDelta = complete_max_delta(c.span, R); if (c.maxDelta < 1) continue; for (int m : { 2, 3, 4, 5 }) if ((N / 2) % m == 0) { c.mash = m; break; } }
+        if (variant == 2) { c.span = std::min(2 * R - 1, 11); if (c.span % 2 == 0) c.span--; c.maxDelta = complete_max_delta(c.span, R); if (c.maxDelta < 0) continue; c.numTang = std::max(1, c.numTang / 2); }
         if (variant == 3) { if (c.maxT <= 0) continue; int m = 1; for (int k : { 3, 5, 9, 11, 13 }) if (c.maxT % k == 0 && (c.maxT / k) % 2 == 1) { m = k; break; } if ((c.maxT / m) % 2 == 0) continue; c.tofMash = m; c.maxDelta = std::min(R - 1, 3); }
-        if (variant == 4) { c.arc = true; c.numTang = sc->get_default_num_arccorrected_bins(); if (c.numTang < 1) continue; c.span = std::min(2 * R - 1, 3); c.maxDelta = std::min(R - 1, std::max(1, (R - 1) / 3 * 3 + 1)); if (c.maxDelta < 1) continue; }
+        if (variant == 4) { c.arc = true; c.numTang = sc->get_default_num_arccorrected_bins(); if (c.numTang < 1) continue; c.span = std::min(2 * R - 1, 3); c.maxDelta = complete_max_delta(c.span, R); if (c.maxDelta < 1) continue; }
         if (variant == 5) { c.ge = true; c.maxDelta = std::min(R - 1, 4); if (c.maxDelta < 1) continue; c.numTang = std::max(1, c.numTang - 1); }
         if (stage == 0 && variant >= 4 && (t % 3) != (int)(vh::seed_from_env() % 3)) continue;
         shared_ptr<Scanner> sc2(new Scanner(*sc));
         run_cfg(tr, c, sc->get_name(), budget, rng, sc2);
       }
     }
-    // generated scanners: small and big rings, spans, mashing, TOF, tilt, arc-corrected, blocks, generic
+    // generated scanners: small and big rings, spans, mashing, TOF, tilt, arc-corrected, blocks, generic.
+    // Templates stay inside the quantifier: segments are complete (max_delta ends a segment), the
+    // non-arc-corrected range stays below 0.8 N bins (|s| < 0.95 R, never neighbouring detectors).
     const std::vector<int> Ns = stage ? std::vector<int>{ 4, 6, 8, 12, 16, 20, 24, 32, 64, 100, 256, 500, 720, 1000 } : std::vector<int>{ 4, 8, 12, 16, 32, 100, 500 };
     for (int N : Ns)
       for (int R : { 1, 2, 3, 5, 8 }) {
         if (N > 100 && R > 3) continue;
-        for (int variant = 0; variant < (stage ? 10 : 6); ++variant) {
+        for (int variant = 0; variant < (stage ? 12 : 7); ++variant) {
           Cfg c; c.N = N; c.R = R; c.maxT = 0;
           c.span = R > 1 ? rng.pick(std::vector<int>{ 1, 1, 2, 3, 5 }) : 1;
           if (c.span > 2 * R - 1) c.span = 1;
-          c.maxDelta = R > 1 ? rng.range(c.span / 2, R - 1) : 0;
-          if (c.span == 5 && c.maxDelta < 2) c.span = 1;
+          {
+            const int half0 = c.span % 2 ? (c.span - 1) / 2 : c.span / 2;
+            const int kmax = (R - 1 - half0) / c.span;
+            if (kmax < 0) { c.span = 1; c.maxDelta = rng.range(0, R - 1); }
+            else c.maxDelta = half0 + rng.range(0, kmax) * c.span;
+          }
           c.mash = rng.pick(std::vector<int>{ 1, 1, 2, 3, 4 }); if ((N / 2) % c.mash) c.mash = 1;
-          c.numTang = rng.coin() ? N - 1 : std::max(1, rng.range(N / 3, N - 1));
+          const int maxbins = std::max(1, std::min(N - 3, 4 * N / 5));
+          c.numTang = rng.coin() ? maxbins : std::max(1, rng.range(N / 3, maxbins));
           float tilt = 0.F;
-          if (variant % 6 == 1) { c.maxT = rng.pick(std::vector<int>{ 5, 9, 13, 15 }); c.tofMash = rng.pick(std::vector<int>{ 1, 3, 5 }); if (c.tofMash > c.maxT || (c.maxT / c.tofMash) % 2 == 0) c.tofMash = 1; }
-          if (variant % 6 == 2) { c.arc = true; c.numTang = rng.range(std::max(1, N / 2), 2 * N); }
-          if (variant % 6 == 3) { c.ge = true; c.span = 1; if (R < 2) continue; c.maxDelta = rng.range(1, R - 1); }
-          if (variant % 6 == 4) tilt = rng.pick(std::vector<float>{ -0.31F, -0.05F, 0.07F, 0.4F });
-          if (variant % 6 == 5) {
+          const int v6 = variant % 7;
+          if (v6 == 1) { c.maxT = rng.pick(std::vector<int>{ 5, 9, 13, 15 }); c.tofMash = rng.pick(std::vector<int>{ 1, 3, 5 }); if (c.tofMash > c.maxT || (c.maxT / c.tofMash) % 2 == 0) c.tofMash = 1; }
+          if (v6 == 2) { c.arc = true; c.numTang = rng.range(std::max(1, N / 2), 2 * N); }
+          if (v6 == 3) { c.ge = true; c.span = 1; if (R < 2) continue; c.maxDelta = rng.range(1, R - 1); }
+          if (v6 == 4) tilt = rng.pick(std::vector<float>{ -0.31F, -0.05F, 0.07F, 0.4F });
+          if (v6 == 5) {
             c.geom = rng.coin() ? "BlocksOnCylindrical" : "Generic";
             if (N < 8 || N > 100) continue;
             c.span = 1; c.mash = 1; c.maxDelta = R - 1;
           }
+          if (v6 == 6) { c.arc = true; c.numTang = rng.range(std::max(1, N / 2), N); c.maxT = 9; c.tofMash = rng.pick(std::vector<int>{ 1, 3 }); tilt = rng.coin() ? 0.F : 0.11F; }
           shared_ptr<Scanner> sc;
           std::string msg;
           if (vh::threw([&] {
                 if (c.geom == "Generic") sc = make_generic(N, R, work, std::max(40.F, N * 4.F / 6.2831853F * 1.2F), 4.F);
-                else sc = vh::make_scanner(N, R, c.maxT, c.geom, 4.F, -1, tilt);
+                else sc = vh::make_scanner(N, R, c.maxT, c.geom, 4.F, c.arc ? N - 1 : maxbins, tilt);
               }, &msg)) continue;
           run_cfg(tr, c, "gen", budget, rng, sc);
         }
